@@ -200,6 +200,17 @@ def kill_conds_on_assign(node, state):
                 v.op, (ast.Add, ast.Sub, ast.Mult, ast.FloorDiv, ast.LShift,
                        ast.RShift, ast.BitAnd, ast.BitOr)):
             out.add(("cond", "%s is None" % x, False))
+        elif isinstance(v, ast.Call) and isinstance(
+                v.func, (ast.Name, ast.Attribute)) and (
+                    v.func.id if isinstance(v.func, ast.Name)
+                    else v.func.attr)[:1].isupper() and (
+                    v.func.id if isinstance(v.func, ast.Name)
+                    else v.func.attr).endswith(("Error", "Exception",
+                                                "Failure", "Implemented",
+                                                "Writeable")):
+            # idiom: an exception instance built for a deferred raise is a
+            # truthy, non-None object
+            out |= {("cond", "%s is None" % x, False), ("cond", x, True)}
     return frozenset(out)
 
 
